@@ -317,6 +317,18 @@ theorem satisfy_within_bounds_partial (ctx : Ctx) (env : SatEnv) (hS : SigsSmall
   obtain ⟨hb, hm⟩ := satisfy_within_bounds ctx env hS n h hs hq hB w hsat hcan
   exact ⟨hm, hb, fun o ho => max_ops_ge_script_ops ctx h160 n false o ho⟩
 
+/-- non-vacuity of the bounds theorem and of `satisfy_accepted_p2wsh_partial`: for the 1-of-2 `multi`
+    instance above the chosen candidate is canonical and the expression has no `thresh`; the bounds
+    it predicts are 2 elements / 74 bytes / 3 ops. -/
+example :
+    let k1 : Key := 2 :: List.replicate 32 7
+    let k2 : Key := 3 :: List.replicate 32 9
+    let env : SatEnv := ⟨[(k2, [9])], [], 0, 0, 2⟩
+    let n : Ms := .multi 1 [k1, k2]
+    noThresh n = true ∧ (inputs .p2wsh env n).sat.nonCanonical = false ∧
+      maxStackItems .p2wsh n = some 2 ∧ maxWitnessSize .p2wsh n = some 74 ∧ maxOps .p2wsh n = some 3 := by
+  decide
+
 /-- `satisfy_accepted_partial` with the 1000-element hypothesis DERIVED, P2WSH, expressions without
     a `thresh`, canonical candidate: `is_within_resource_limits` bounds `max_stack_items` by
     100 and `satisfy_within_bounds_partial` the witness by `max_stack_items`. -/
